@@ -18,7 +18,7 @@ ASSUMPTIONS = ['unitless (valueunit None) spectra stored in m / um / nm / angstr
                'all-zero spectra under preserve_power (0/0) are not generated',
                "Simpson's rule is exercised only with uniformly spaced centres and data, as the property scopes it"]
 PLAN = {'quick': {'gen': 8}, 'thorough': {'gen': 16, 'tests': 1, 'docs': 1}}
-REQUIRED_BUCKETS = ['unit:m', 'unit:um', 'unit:nm', 'unit:angstrom', 'bin:unit-same', 'bin:unit-differs', 'integrate:trapz', 'integrate:simps', 'bin:trapz', 'bin:simps', 'ends:symmetric', 'ends:inside',
+REQUIRED_BUCKETS = ['integrate:bright-band-below-bounds', 'wave:integer-dtype', 'unit:m', 'unit:um', 'unit:nm', 'unit:angstrom', 'bin:unit-same', 'bin:unit-differs', 'integrate:trapz', 'integrate:simps', 'bin:trapz', 'bin:simps', 'ends:symmetric', 'ends:inside',
                     'preserve:True', 'preserve:False', 'grid:nonuniform', 'op:crop', 'op:trim', 'op:pad', 'op:append',
                     'op:resample', 'op:raised', 'history:len>=6']
 REQUIRED_ANCHORS = ['probe:Spectrum.crop', 'probe:Spectrum.trim', 'probe:Spectrum.pad', 'probe:Spectrum.append',
@@ -39,6 +39,8 @@ def snapshot(s):
 
 def invariant(ctx, s, op, info):
     w, v = np.asarray(s._wave), np.asarray(s._value)
+    if w.dtype.kind in 'biu':
+        w = w.astype(float)         # (differences of unsigned integers wrap around: compare as numbers)
     ok = (w.ndim == 1 and v.shape == w.shape and bool(np.all(w > 0)) and bool(np.all(np.diff(w) > 0)))
     ctx.check(ok, 'invariant', f'invariant|after={op}|{info["outcome"]}',
               'spectrum is not a strictly increasing positive wavelength grid with one value per wavelength',
@@ -158,9 +160,18 @@ def workload(ctx, lentil):
         mk = lambda ww, vv, _u=unit: S(ww, vv, waveunit=_u)
         a, b = float(rng.normal()), float(rng.normal())
         i0, i1 = sorted(rng.choice(m, 2, replace=False))
+        if i % 5 == 2 and m >= 6:
+            # huge dynamic range: a band 1e8..1e18 times brighter than the rest lies entirely below the lower bound (a laser line
+            # ahead of a faint continuum, the Planck peak ahead of its tail): the integral of the interval does not feel it
+            kb = int(rng.integers(1, m // 2))
+            v1 = v1.copy()
+            v1[:kb] *= 10.0 ** float(rng.uniform(8, 18))
+            i0 = int(rng.integers(kb + 1, m - 1))
+            i1 = int(rng.integers(i0 + 1, m))
+            ctx.bucket('integrate:bright-band-below-bounds')
         at_samples = rng.random() < 0.6
         lo, hi = (w[i0], w[i1]) if at_samples else (w[i0] + 0.3 * (w[i0 + 1] - w[i0]), w[i1] - 0.3 * (w[i1] - w[i1 - 1]))
-        if rng.random() < 0.25:
+        if rng.random() < 0.25 and not (i % 5 == 2 and m >= 6):
             lo = hi = None
         if lo is not None and not np.any((w >= lo) & (w <= hi)):
             ctx.skip('integrate: no sample inside the bounds')
@@ -283,6 +294,14 @@ def workload(ctx, lentil):
             v[-int(rng.integers(1, 3)):] = 0
         if rng.random() < 0.05:
             v[:] = 0
+        wdt = None
+        if i % 5 == 3:
+            # wavelength columns as read from a file: (unsigned) integer nanometres
+            wdt = [np.uint16, np.uint32, np.int32, np.int64, np.uint64][int(rng.integers(0, 5))]
+            w = np.unique(np.round(w).astype(wdt))
+            v = v[:w.size]
+            m = int(w.size)
+            ctx.bucket('wave:integer-dtype')
         sp = S(w.copy(), v.copy())
         L = int(rng.integers(1, 13))
         ops = []
@@ -342,6 +361,12 @@ def workload(ctx, lentil):
                         g = np.linspace(hi_, lo_, k)                # decreasing: invalid
                     else:
                         g = np.array([lo_, lo_ + 1, lo_ + 1, lo_ + 2])      # repeated: invalid
+                    if wdt is not None:
+                        if kind >= 0.85 and rng.random() < 0.5:
+                            g = np.array([lo_ + 50, lo_ + 250, lo_ + 150, lo_ + 300])      # zig-zag: invalid
+                        g = np.abs(np.round(g)).astype(wdt)
+                        if kind < 0.85:
+                            g = np.unique(g)
                     ops.append(['resample', int(g.size), 'valid' if kind < 0.85 else 'invalid'])
                     sp.resample(g)
             except Exception:
